@@ -12,7 +12,14 @@ class _Sock:
         self.chunks = list(chunks)
 
     def recv(self, n):
-        return self.chunks.pop(0) if self.chunks else b""
+        """at most n bytes of the next scripted chunk (the rest stays for the next read); b"" once the script is exhausted"""
+        if not self.chunks:
+            return b""
+        c = self.chunks[0]
+        if len(c) > n:
+            self.chunks[0] = c[n:]
+            return c[:n]
+        return self.chunks.pop(0)
 
 
 class _Srv:
@@ -99,6 +106,23 @@ def stream(tier):
         # with an unterminated remainder
         one([s + "9|SUB|S|x"], lines)
         one([s[:5], s[5:] + "9|SUB|S|x\r"], lines)
+    # long streams: reads that fill the reader's 1024-byte request exactly, or nearly (a full read says nothing about what is
+    # still to come), and lines longer than one read
+    for _ in range({"quick": 12, "search": 30, "thorough": 300}[tier]):
+        lines = gen_stream(R, R.choice([20, 40, 60]))
+        if R.random() < 0.5:
+            lines.insert(R.randrange(len(lines)), "b16|SUB|S|" + "y" * R.choice([1010, 2047, 3000]) + R.choice(["\r\n", "\n"]))
+        s = "".join(lines)
+        size = R.choice([1024, 1024, 1023, 1025, 2048, 512])
+        # cut so that complete lines END exactly at a read boundary where possible: pad the stream with a final short line
+        pad = (-len(s)) % size
+        if pad >= 8 and R.random() < 0.7:
+            filler = "c1|USB|S|" + "z" * (pad - 8 - 2)
+            lines.append(filler[:pad - 2] + "\r\n")
+            s = "".join(lines)
+        one([s[i:i + size] for i in range(0, len(s), size)], lines)
+        one([s], lines)                                   # everything available at once: the reader takes 1024 at a time
+        res.distribution["full_read_streams"] += 2
     for _ in range(nrand):
         lines = gen_stream(R, R.choice([1, 2, 3, 6]))
         s = "".join(lines)
